@@ -247,6 +247,15 @@ def _componentwise(pss, self_name, F):
         contains(ps.retval, lambda x: hits.append(x) or False
                  if isinstance(x, tuple) and x and x[0] in ("dict", "dictextend")
                  else False)
+        if not hits and ps.retval[0] == "call" and of_field(ps.retval) and any(
+                isinstance(v, tuple) and contains(
+                    v, lambda x: x[0] == "elem" and isinstance(x[1], tuple)
+                    and x[1] and x[1][0] == "call"
+                    and str(x[1][1]).endswith("ndindex"))
+                for _, v in _conds(ps)):
+            # the container comes back as it was created although the loop
+            # over its slots ran: a slot was passed over (left at the filler)
+            return False
         for h in hits:
             if h[0] == "dict":
                 # ('dict', key, value, ('items', M) [, filters])
